@@ -426,12 +426,23 @@ func Run(j *job.Job, s *job.Sink) {
 			ops = append(ops, op{"badread", "zzbadf.yang", "module zzbadf {\n  namespace \"urn:zzbadf\";\n  prefix zf;\n  leaf x { type string; }\n" + []string{"", "  frobnicate y;\n}\n", "  leaf x { type string; }\n  typedef t { type nosuch; }\n  leaf-list { }\n}\n"}[r.Intn(3)]},
 				op{"load", "zzuser.yang", "module zzuser {\n  namespace \"urn:zzuser\";\n  prefix zu;\n  import zzdep { prefix d; }\n  leaf l { type d:t; }\n}\n"},
 				op{Kind: "process"})
+			if r.Intn(2) == 0 {
+				// then the rejected file is repaired and read again, under the same name
+				ops = append(ops, op{"repair", "zzbadf.yang", "module zzbadf {\n  namespace \"urn:zzbadf\";\n  prefix zf;\n  leaf x { type string; }\n  leaf repaired { type string; }\n}\n"}, op{Kind: "process"}, op{Kind: "read"})
+				s.Count("histories_with_a_repaired_file", 1)
+			}
 			s.Count("histories_with_a_rejected_file_read", 1)
 		}
 		// One history in eight has a module whose import is nowhere to be found at first (a run
 		// reports it as missing, a read may look for it as well); later a good file is read from
 		// a directory that also holds the missing module, which puts the directory on the search
 		// path. From then on the import resolves, as it does in a set that was never asked before.
+		// One history in ten reads a module whose imports lie next to it and are fetched by the
+		// processing run itself, one of them with an augment of another; the run is repeated.
+		if r.Intn(10) == 0 {
+			ops = append(ops, op{"goodreadaug", "zzmain.yang", "module zzmain {\n  namespace \"urn:zzmain\";\n  prefix zm;\n  import zzext { prefix ze; }\n  leaf l { type ze:percent; }\n}\n"}, op{Kind: "process"}, op{Kind: "process"}, op{Kind: "read"})
+			s.Count("histories_with_fetched_modules_that_augment", 1)
+		}
 		if r.Intn(8) == 0 {
 			needs := op{"load", "zzneeds.yang", "module zzneeds {\n  namespace \"urn:zzneeds\";\n  prefix zn;\n  import zzlate { prefix zl; }\n  leaf l { type zl:t; }\n  identity mine { base zl:zlid; }\n}\n"}
 			other := op{"goodread", "zzother.yang", "module zzother {\n  namespace \"urn:zzother\";\n  prefix zo;\n  leaf o { type string; }\n}\n"}
@@ -478,6 +489,7 @@ func Run(j *job.Job, s *job.Sink) {
 			ms := yang.NewModules()
 			var good []op
 			failedLoads := 0
+			lastBadPath := ""
 			processedBefore := false
 			lastClean := false
 			everProcessed, lastProcClean := false, false
@@ -497,6 +509,7 @@ func Run(j *job.Job, s *job.Sink) {
 					os.WriteFile(filepath.Join(dir, o.Name), []byte(o.Text), 0o644)
 					os.WriteFile(filepath.Join(dir, "zzdep.yang"), []byte("module zzdep {\n  namespace \"urn:zzdep\";\n  prefix zd;\n  typedef t { type int8; }\n}\n"), 0o644)
 					err = ms.Read(filepath.Join(dir, o.Name))
+					lastBadPath = filepath.Join(dir, o.Name)
 					// (the directory stays until the history is over: what matters is whether
 					// the set still looks into it)
 					defer os.RemoveAll(dir)
@@ -505,6 +518,37 @@ func Run(j *job.Job, s *job.Sink) {
 						return
 					}
 					failedLoads++
+				case "goodreadaug":
+					// a module read from a directory that also holds what it imports: Process
+					// fetches those, and one of them augments another
+					dir, err := os.MkdirTemp(".", "goodreadaug")
+					if err != nil {
+						continue
+					}
+					os.WriteFile(filepath.Join(dir, o.Name), []byte(o.Text), 0o644)
+					os.WriteFile(filepath.Join(dir, "zzext.yang"), []byte("module zzext {\n  namespace \"urn:zzext\";\n  prefix ze;\n  import zzbase { prefix zb; }\n  typedef percent { type uint8 { range \"0..100\"; } }\n  augment \"/zb:c\" {\n    leaf load { type percent; }\n    choice how { leaf quick { type empty; } }\n  }\n}\n"), 0o644)
+					os.WriteFile(filepath.Join(dir, "zzbase.yang"), []byte("module zzbase {\n  namespace \"urn:zzbase\";\n  prefix zb;\n  container c { leaf own { type string; } }\n}\n"), 0o644)
+					defer os.RemoveAll(dir)
+					if err := ms.Read(filepath.Join(dir, o.Name)); err != nil {
+						bad("good-text-rejected", err.Error(), nil)
+						return
+					}
+					good = append(good, op{Kind: "goodread", Name: filepath.Join(dir, o.Name)})
+					lastClean = false
+				case "repair":
+					// the file that was rejected a moment ago has been repaired on disk and is
+					// offered again under the same name
+					if lastBadPath == "" {
+						continue
+					}
+					os.WriteFile(lastBadPath, []byte(o.Text), 0o644)
+					if err := ms.Read(lastBadPath); err != nil {
+						bad("good-text-rejected", "the repaired file: "+err.Error(), nil)
+						return
+					}
+					good = append(good, op{Kind: "goodread", Name: lastBadPath})
+					lastBadPath = ""
+					lastClean = false
 				case "goodread":
 					dir, err := os.MkdirTemp(".", "goodread")
 					if err != nil {
